@@ -61,24 +61,33 @@ def run(ctx):
                           f'in an internal procedure makes the host return early)', facts=facts)
     # ---- R2
     f = m.get_function(PR, 'inline_subroutine_calls')
-    clones = [c for c in ast.walk(f.node) if isinstance(c, ast.Call) and X.dotted_attr(c.func) == 'v.clone'
-              and any(k.arg == 'name' for k in c.keywords)]
-    names = sorted({ast.unparse([k.value for k in c.keywords if k.arg == 'name'][0]) for c in clones})
+    # the two renaming sites: `<v>.clone(name=<expr over v>)` with v the variable being renamed (whatever it is called);
+    # the name expressions are compared after replacing the receiver by a placeholder
+    clones = [c for c in ast.walk(f.node) if isinstance(c, ast.Call) and isinstance(c.func, ast.Attribute) and c.func.attr == 'clone'
+              and isinstance(c.func.value, ast.Name) and any(k.arg == 'name' for k in c.keywords)]
+    import re as _re
+    names = sorted({_re.sub(r'\b%s\b' % _re.escape(c.func.value.id), '<v>', ast.unparse([k.value for k in c.keywords if k.arg == 'name'][0]))
+                    for c in clones})
     if len(clones) < 2:
         raise AnalysisError('inline_subroutine_calls: the two renaming sites were not found')
     (ctx.judge('R2', 'shadow rename expression', facts={'expressions': names, 'sites': len(clones)}) if len(names) == 1 else
      ctx.violation('R2', 'inline_subroutine_calls:shadow-rename', f.where,
                    f'clashing callee locals are renamed with different expressions in declarations and body: {names}'))
     # duplicates exclude dummies and compare case-insensitively
-    dup = [n for n in ast.walk(f.node) if isinstance(n, ast.Assign) and ast.unparse(n.targets[0]) == 'duplicates']
+    pvn = (X.names_assigned_from(f.node, 'routine.variable_map') or ['parent_variables'])[0]
+    dup = [n for n in ast.walk(f.node) if isinstance(n, ast.Assign) and isinstance(n.targets[0], ast.Name)
+           and 'callee.variables' in ast.unparse(n.value) and pvn in ast.unparse(n.value)]
     txt = ast.unparse(dup[0].value) if dup else ''
-    ok = 'v.name in parent_variables' in txt and 'callee._dummies' in txt
+    ok = f'.name in {pvn}' in txt and 'callee._dummies' in txt
     (ctx.judge('R2', 'duplicates exclude dummy arguments', facts={'expr': txt}) if ok else
      ctx.violation('R2', 'inline_subroutine_calls:duplicates', f.where, f'clash detection is `{txt}`'))
     # ---- R3
-    cm = [n for n in ast.walk(f.node) if isinstance(n, ast.Assign) and ast.unparse(n.targets[0]).startswith('call_map')
-          or (isinstance(n, ast.Assign) and isinstance(n.value, ast.DictComp) and 'call' in ast.unparse(n.value))]
-    ok = any('for call in calls' in ast.unparse(n) and ast.unparse(n.value.key) == 'call' for n in cm if isinstance(n.value, ast.DictComp))
+    cpar = [a.arg for a in f.node.args.args]
+    cm = [n for n in ast.walk(f.node) if isinstance(n, ast.Assign) and isinstance(n.value, ast.DictComp)
+          and 'map_call_to_procedure_body' in ast.unparse(n.value)]
+    ok = any(len(n.value.generators) == 1 and isinstance(n.value.generators[0].target, ast.Name)
+             and ast.unparse(n.value.generators[0].iter) in cpar and not n.value.generators[0].ifs
+             and ast.unparse(n.value.key) == n.value.generators[0].target.id for n in cm)
     (ctx.judge('R3', 'mapping keyed by the inlined calls') if ok else
      ctx.violation('R3', 'inline_subroutine_calls:call_map', f.where, 'the call->body mapping is not keyed by exactly the calls to inline'))
 
